@@ -77,6 +77,9 @@ def decompositions(w, h, tier):
     # an input lying strictly inside another one (every order: the contained one first makes the later input extend
     # the union on both sides of both axes at once), and three nested frames
     out.append(("contained", [(w // 4, h // 4, w // 2 + 20, h // 2 + 30, 0), (0, 0, w, h, 0)]))
+    # equal chips side by side, the middle one without a single defined pixel (an exposure that failed)
+    t = w // 3
+    out.append(("grid-empty-nan", [(0, 0, t, h, 0), (t, 0, 2 * t, h, max(t, h)), (2 * t, 0, w, h, 0)]))
     out.append(("nested3-nan", [(w // 3, h // 3, w // 2 + 10, h // 2 + 10, 0), (w // 6, h // 8, w - 40, h - 30, 3), (0, 0, w, h, 3)]))
     return out
 
@@ -178,7 +181,20 @@ def serial_case(d, size, dname, rects, bottom_up, order, fmt, part):
             ref_root, ref_b = reference_route(d, A, wcs, fmt)
             pio = PyramidIO(root, default_format=fmt)
             b = Builder(pio)
-            proc = MultiTanProcessor(stages.ListCollection(imgs))
+            if dname.endswith("@files"):
+                # the inputs as FITS files read through toasty's own collection class
+                from astropy.io import fits
+                from toasty.collection import SimpleFitsCollection
+
+                paths = []
+                for k, im in enumerate(imgs):
+                    pth = os.path.join(d, "in%d.fits" % k)
+                    fits.PrimaryHDU(np.asarray(im.asarray()), header=im.wcs.to_header()).writeto(pth, overwrite=True)
+                    paths.append(pth)
+                coll = SimpleFitsCollection(paths)
+            else:
+                coll = stages.ListCollection(imgs)
+            proc = MultiTanProcessor(coll)
             proc.compute_global_pixelization(b)
             proc.tile(pio, parallel=1)
     except Exception as e:
@@ -412,6 +428,13 @@ def run(tier, seed):
                         if tier == "quick" and size[0] == 518 and not ("nan" in dname or dname == "contained"):
                             continue
                         cases.append((size, dname, rects, bottom_up, order, fmt))
+    # the same through FITS files and toasty's collection class, for the decompositions with undefined pixels
+    for size in sizes[:2]:
+        for dname, rects in decompositions(size[0], size[1], tier):
+            if "nan" in dname:
+                for bottom_up in (True, False):
+                    for order in itertools.permutations(range(len(rects))):
+                        cases.append((size, dname + "@files", rects, bottom_up, order, "fits"))
     for blank in (0.0, -999.0, 0, "0", "-999", "-999.0", "1e3"):
         for order in ((0, 1), (1, 0)):
             cases.append(("blankval", blank, order))
@@ -469,7 +492,7 @@ def replay(payload):
     with scratch("c09r") as d:
         rects = None
         for dname, rr in decompositions(r["mosaic"][0], r["mosaic"][1], "thorough"):
-            if dname == r["decomposition"]:
+            if dname == r["decomposition"].split("@")[0]:
                 rects = rr
         serial_case(d, tuple(r["mosaic"]), r["decomposition"], rects, r["bottom_up_inputs"], tuple(r["order"]), r["format"], part)
     for sig, (detail, _) in part.violations.items():
